@@ -357,9 +357,6 @@ func (in *inliner) simpleBody(fd *ast.FuncDecl, f *types.Func, anyReturns bool) 
 	if !ok {
 		return false
 	}
-	if r := sig.Recv(); r != nil && assignedIn(in.info, fd.Body, r) {
-		return false
-	}
 	if anyReturns {
 		// the multi-return expansions substitute parameters: they need them unassigned
 		for p := range params {
@@ -400,6 +397,17 @@ func (in *inliner) simpleArg(e ast.Expr) bool {
 		return (x.Op == token.AND || x.Op == token.SUB || x.Op == token.NOT) && in.simpleArg(x.X)
 	case *ast.IndexExpr:
 		return in.simpleArg(x.X) && in.simpleArg(x.Index)
+	case *ast.SliceExpr:
+		for _, e := range []ast.Expr{x.Low, x.High, x.Max} {
+			if e != nil && !in.simpleArg(e) {
+				return false
+			}
+		}
+		return in.simpleArg(x.X)
+	case *ast.BinaryExpr:
+		return in.simpleArg(x.X) && in.simpleArg(x.Y)
+	case *ast.ParenExpr:
+		return in.simpleArg(x.X)
 	case *ast.CallExpr:
 		// conversion of a simple expression
 		if tv, ok := in.info.Types[x.Fun]; ok && tv.IsType() && len(x.Args) == 1 {
